@@ -166,6 +166,7 @@ static bool num(const std::string &s, long &out) {
 struct Req {             // what the property says about a request
   bool invalid = false;  // must raise
   bool f05 = false;      // ... only because the receiver is an uninitialised handle (known finding F05)
+  bool dontcare = false; // zero-byte dtype: every range addresses zero bytes, the property does not say which to reject
   std::string why;
   void bad(const std::string &w, bool f = false) { if (!invalid) { invalid = true; why = w; f05 = f; } }
 };
@@ -286,7 +287,8 @@ int main() {
         else {
           if (off < 0) req.bad("negative offset");
           if (cnt < -1 && sv[s].esz) req.bad("negative count");
-          if (cnt == -1 ? off > lenOf(s) : off + cnt > lenOf(s)) req.bad("out of the handle's range");
+          if (sv[s].esz == 0 && off >= 0) req.dontcare = true;
+          else if (cnt == -1 ? off > lenOf(s) : off + cnt > lenOf(s)) req.bad("out of the handle's range");
         }
         made = d; parent = s;
         act = [=]() { occa::memory m = plus ? (vars[s] + off) : vars[s].slice(off, cnt); vars[d] = m; };
@@ -442,11 +444,12 @@ int main() {
       catch (occa::exception &ex) { threw = true; out = errClass(ex); }
 
       // ---- O3 / O4
-      if (!threw && req.invalid) {
+      if (req.dontcare) { /* neither O3 nor O4 */ }
+      else if (!threw && req.invalid) {
         if (!(req.f05 && quietF05))
           hp::oracle(std::string(req.f05 ? "uninitialised handle: " : "invalid request accepted: ") + "`" + op + "` (" + req.why + ") returned without raising occa::exception");
       }
-      if (threw && !req.invalid)
+      if (threw && !req.invalid && !req.dontcare)
         hp::oracle("valid request rejected: `" + op + "` raised " + out);
 
       if (threw) {
